@@ -257,6 +257,25 @@ func (o OneOfSchema[KeyType]) validateSchema(otherSchema OneOfSchema[KeyType]) e
 
 func (o OneOfSchema[KeyType]) validateMap(data map[string]any) (KeyType, Object, error) {
 	var nilKey KeyType
+	selectedTypeIDAsserted, selectedSchema, err := o.selectMember(data)
+	if err != nil {
+		return nilKey, nil, err
+	}
+	cloneData := o.deleteDiscriminator(data)
+	err = selectedSchema.ValidateCompatibility(cloneData)
+	if err != nil {
+		return nilKey, nil, &ConstraintError{
+			Message: fmt.Sprintf(
+				"validation failed for OneOfSchema. Failed to validate as selected schema type '%T' from discriminator value '%v' (%s)",
+				selectedSchema, selectedTypeIDAsserted, err),
+		}
+	}
+	return selectedTypeIDAsserted, selectedSchema, nil
+}
+
+// selectMember finds the member object a map is routed to by its discriminator.
+func (o OneOfSchema[KeyType]) selectMember(data map[string]any) (KeyType, Object, error) {
+	var nilKey KeyType
 	// Validate that it has the discriminator field.
 	// If it doesn't, fail
 	// If it does, pass the non-discriminator fields into the ValidateCompatibility method for the object
@@ -283,15 +302,6 @@ func (o OneOfSchema[KeyType]) validateMap(data map[string]any) (KeyType, Object,
 			Message: fmt.Sprintf(
 				"validation failed for OneOfSchema. Discriminator value '%v' is invalid. Expected one of: %v",
 				selectedTypeIDAsserted, o.getTypeValues()),
-		}
-	}
-	cloneData := o.deleteDiscriminator(data)
-	err := selectedSchema.ValidateCompatibility(cloneData)
-	if err != nil {
-		return nilKey, nil, &ConstraintError{
-			Message: fmt.Sprintf(
-				"validation failed for OneOfSchema. Failed to validate as selected schema type '%T' from discriminator value '%v' (%s)",
-				selectedSchema, selectedTypeIDAsserted, err),
 		}
 	}
 	return selectedTypeIDAsserted, selectedSchema, nil
@@ -390,7 +400,7 @@ func (o OneOfSchema[KeyType]) findUnderlyingType(data any) (KeyType, Object, err
 				),
 			}
 		}
-		myKey, mySchemaObj, err := o.validateMap(dataMap)
+		myKey, mySchemaObj, err := o.selectMember(dataMap)
 		if err != nil {
 			return nilKey, nil, err
 		}
